@@ -45,6 +45,7 @@ namespace pika {
 
         while (owner_id_ != threads::detail::invalid_thread_id)
         {
+            PIKA_VERIF_POINT(30, this);
             cond_.wait(l, ec);
             if (ec) { return; }
         }
@@ -87,6 +88,7 @@ namespace pika {
         owner_id_ = threads::detail::invalid_thread_id;
 
         {
+        PIKA_VERIF_POINT(31, this);
             [[maybe_unused]] util::ignore_while_checking il(&l);
 
             cond_.notify_one(std::move(l), execution::thread_priority::boost, ec);
